@@ -207,8 +207,8 @@ def run(E: Engine, rep: Report, tier: str) -> dict:
             cands.append((l, l.value))
     forms = {}
     for l, c in cands:
-        if c[0] == "carried":
-            continue
+        if c[0] == "carried" or not _mentC(c, "kaiser"):
+            continue  # (only quantities computed from a tried window are candidate peaks)
         forms.setdefault(_abstract_window(c), []).append(l)
     with_peak = [f_ for f_ in forms if any(t[0] == "call" and t[1][0] == "attr" and t[1][2] in ("max", "amax") for t in _symC.subterms(f_))]
     if len(cands) < 3 or not with_peak:
@@ -238,6 +238,63 @@ def run(E: Engine, rep: Report, tier: str) -> dict:
         else:
             rep.excepted("SIB", "InterpolatedWaveform.__init__|data-points-on-nearest-sample", "neither a rounding nor a truncating conversion of the times was recognised: not decided", E.where(ii, l.node))
     rep.floor("SIB", 28)
+    # ---- round 5 (independent audit): boundary durations and aliases ----
+    # (a) a Blackman window can be identically zero (np.blackman(2)): the normalised window that divides the area is never
+    #     all zeros -- it is replaced under a `np.any(window)` test
+    bi = E.fn("pulser.waveforms.BlackmanWaveform.__init__")
+    ns_ = [l for l in _SK(E, bi, inline=False).logged("store") if l.target is not None and l.target[0] == "attr" and l.target[2] == "_norm_samples"]
+    if not ns_:
+        raise AnalysisError("anchor: BlackmanWaveform.__init__ no longer stores _norm_samples")
+    for l in ns_:
+        guarded = any(t[0] == "ifexp" and any(u[0] == "call" and u[1][0] == "attr" and u[1][2] in ("any", "all", "sum", "count_nonzero") for u in _symC.subterms(t[1])) for t in _symC.subterms(l.value))
+        rep.check(guarded, "DIV0", "BlackmanWaveform.__init__|window-never-all-zero", "the normalised window is replaced when it is identically zero", "BlackmanWaveform divides the area by the sum of np.clip(np.blackman(duration), 0, inf), which is [0, 0] for duration 2: BlackmanWaveform(2, area) (also reached through change_duration(2)) is all NaN, and Pulse accepts it because nan < 0 is False", E.where(bi, l.node))
+    # (b) the stored phase lies in [0, 2pi): `x % 2pi` of a tiny negative x rounds to 2pi itself, so the modulo is applied
+    #     twice (or the result is otherwise brought below 2pi)
+    pi_f = E.fn("pulser.pulse.Pulse.__init__")
+    for l in _SK(E, pi_f, inline=False).calls("__setattr__"):
+        if len(l.value[2]) < 3 or l.value[2][1] not in (("const", "phase"), ("const", "post_phase_shift")):
+            continue
+        v_ = _unK(l.value[2][2])
+        twice = v_[0] == "bin" and v_[1] == "Mod" and _unK(v_[2])[0] == "bin" and _unK(v_[2])[1] == "Mod"
+        other = any(t[0] == "ifexp" or (t[0] == "call" and t[1][0] == "attr" and t[1][2] in ("where", "nextafter")) for t in _symC.subterms(v_))
+        rep.check(twice or other, "GUARD", f"Pulse.__init__|{l.value[2][1][1]}-strictly-below-2pi", "(x % 2pi) % 2pi", f"Pulse stores `{_shC(v_, 60)}`: the float result of x % (2*pi) for a tiny negative x is 2*pi itself (Pulse.ConstantPulse(10, 1, 0, -1e-17).phase == 2*pi; ArbitraryPhase with a ramp 0.1 -> 0.4 too), outside [0, 2pi)", E.where(pi_f, l.node))
+    # (c) Pulse.ArbitraryPhase: the generic branch differentiates the phase samples (np.diff, then an edge pad): a
+    #     one-sample waveform has an empty diff, so duration 1 takes the zero-detuning branch
+    ap_f = E.fn("pulser.pulse.Pulse.ArbitraryPhase")
+    r_ap = _SK(E, ap_f, inline=False).ret
+    diff_conds = []
+    def _walk_if(t, conds):
+        if not isinstance(t, tuple) or not t:
+            return
+        if t[0] == "ifexp":
+            _walk_if(t[2], conds + [t[1]])
+            _walk_if(t[3], conds + [_symC.mk_not(t[1])])
+            return
+        if t[0] == "call" and t[1][0] == "attr" and t[1][2] == "diff":
+            diff_conds.append(list(conds))
+        for x in t:
+            _walk_if(x, conds)
+    _walk_if(r_ap, [])
+    if not diff_conds:
+        rep.excepted("GUARD", "Pulse.ArbitraryPhase|one-sample-phase-handled", "no np.diff of the phase samples found: not decided", E.where(ap_f))
+    else:
+        ok_d = all(any(_mentC(x, "duration") or _mentC(x, "len") for c_ in cs for x in _symC.conj_of(c_)) for cs in diff_conds)
+        rep.check(ok_d, "GUARD", "Pulse.ArbitraryPhase|one-sample-phase-handled", "the diff branch is taken only when the duration is not 1", "Pulse.ArbitraryPhase differentiates and edge-pads the phase samples for every waveform that is not Constant/Ramp: a 1-sample Custom / Blackman / Kaiser phase waveform has an empty diff and raises ValueError (can't extend empty axis)", E.where(ap_f))
+    # (d) a CustomWaveform owns its samples (AbstractArray(float64 ndarray) shares memory with the caller's array)
+    ci = E.fn("pulser.waveforms.CustomWaveform.__init__")
+    cs_ = [l for l in _SK(E, ci, inline=False).logged("store") if l.target is not None and l.target[0] == "attr" and l.target[2] == "_samples_arr"]
+    if not cs_:
+        raise AnalysisError("anchor: CustomWaveform.__init__ no longer stores _samples_arr")
+    for l in cs_:
+        copied = any(t[0] == "call" and ((t[1][0] == "attr" and t[1][2] in ("copy", "clone", "tolist")) or t[1] in (("attr", ("name", "np"), "array"), ("attr", ("name", "np"), "copy"))) for t in _symC.subterms(l.value))
+        rep.check(copied, "ALIAS", "CustomWaveform.__init__|samples-copied", "the stored samples are a copy", f"CustomWaveform stores `{_shC(l.value, 60)}`: AbstractArray does not copy a float64 ndarray, so the waveform shares memory with the caller's array -- editing it afterwards changes the samples, the hash and already validated pulses", E.where(ci, l.node))
+    # (e) KaiserWaveform.from_max_val: the stepping loop may only run downwards when some duration >= 1 fits -- when one
+    #     sample already holds the area below max_val the exhaustive branch is taken (the loop would reach np.kaiser(0))
+    ex_branch = [l for l in Skf.logged("test") if l.fn == kf.short and any(x[0] == "cmp" and _symC.contains(x, ("const", 11)) for x in _symC.subterms(l.value))]
+    if not ex_branch:
+        rep.excepted("GUARD", "KaiserWaveform.from_max_val|exhaustive-branch-when-one-sample-fits", "the `duration_guess < 11` test was not found: not decided", E.where(kf))
+    for l in ex_branch[:1]:
+        rep.check(l.value[0] == "or" and any(_is_mv(y) for x in l.value[1:] for y in (x[2:] if x[0] == "cmp" else ())), "GUARD", "KaiserWaveform.from_max_val|exhaustive-branch-when-one-sample-fits", "`duration_guess < 11 or 1000 * area <= max_val`", "the exhaustive search of KaiserWaveform.from_max_val is taken on the duration guess alone: with a large beta and an area one sample already holds below max_val the guess is >= 11, the downward loop runs to duration 0 and np.max(np.kaiser(0, beta)) raises (from_max_val(10, 0.0095, 250))", E.where(kf, l.node))
 
     # ------------------------------------------------------ base operations
     from .. import bounds, sym
